@@ -1,34 +1,39 @@
 ---------------------------- MODULE OrderCatalog ----------------------------
-(* Ordering rulebooks for the patching catalogue (same index).  Sibling rules have pairwise disjoint languages. *)
+(* Ordering rulebooks for the patching catalogue: OrdCatalog[k] is a sequence of alternative ordering rulebooks for patching
+   entry k.  Sibling rules have pairwise disjoint languages (at every depth, inherited %global entries included). *)
 EXTENDS RuleCatalog, Orderer
 O(pat, kids) == [pat |-> pat, kids |-> kids, glob |-> FALSE, orev |-> FALSE]
 OG(pat) == [pat |-> pat, kids |-> <<>>, glob |-> TRUE, orev |-> FALSE]
 OR(pat) == [pat |-> pat, kids |-> <<>>, glob |-> FALSE, orev |-> TRUE]
 OrdCatalog == <<
   \* flat: c first, then a, b; removal of m pinned between them; PrefixX unmentioned
-  << O(<<T("c"), TT>>, <<>>), OR(<<T(Prefix), T("m"), TT>>), O(<<T(PrefixX), ST>>, <<>>), O(<<T("a"), ST>>, <<>>), O(<<T("b")>>, <<>>) >>,
+  << << O(<<T("c"), TT>>, <<>>), OR(<<T(Prefix), T("m"), TT>>), O(<<T(PrefixX), ST>>, <<>>), O(<<T("a"), ST>>, <<>>), O(<<T("b")>>, <<>>) >> >>,
   \* nest: blk before a; inside: y, sub{z}, x
-  << O(<<T("blk"), ST>>, << O(<<T("y")>>, <<>>), O(<<T("sub"), ST>>, << O(<<T("z"), ST>>, <<>>) >>), O(<<T("x"), ST>>, <<>>) >>), O(<<T("a"), ST>>, <<>>) >>,
+  << << O(<<T("blk"), ST>>, << O(<<T("y")>>, <<>>), O(<<T("sub"), ST>>, << O(<<T("z"), ST>>, <<>>) >>), O(<<T("x"), ST>>, <<>>) >>), O(<<T("a"), ST>>, <<>>) >> >>,
   \* logics: p, s, i, b
-  << O(<<T("p"), ST>>, << O(<<T("q"), ST>>, <<>>) >>), O(<<T("s"), ST>>, <<>>), O(<<T("i")>>, <<>>), O(<<T("b")>>, <<>>) >>,
+  << << O(<<T("p"), ST>>, << O(<<T("q"), ST>>, <<>>) >>), O(<<T("s"), ST>>, <<>>), O(<<T("i")>>, <<>>), O(<<T("b")>>, <<>>) >> >>,
   \* logics-nested
-  << O(<<T("blk"), ST>>, << O(<<T("p"), ST>>, <<>>), O(<<T("i")>>, <<>>), O(<<T("b")>>, <<>>) >>), O(<<T("a"), ST>>, <<>>) >>,
+  << << O(<<T("blk"), ST>>, << O(<<T("p"), ST>>, <<>>), O(<<T("i")>>, <<>>), O(<<T("b")>>, <<>>) >>), O(<<T("a"), ST>>, <<>>) >> >>,
   \* ordered: d before rules
-  << O(<<T("acl"), ST>>, << O(<<T("d")>>, <<>>), O(<<T("rule"), ST>>, <<>>) >>) >>,
-  << O(<<T("pm"), ST>>, << O(<<T("class"), ST>>, << O(<<T("bw"), ST>>, <<>>) >>) >>) >>,
-  << O(<<T("rp"), ST>>, <<>>), O(<<T("a"), ST>>, <<>>) >>,
-  << O(<<T("blk"), ST>>, <<>>), O(<<T("a"), ST>>, <<>>) >>,
+  << << O(<<T("acl"), ST>>, << O(<<T("d")>>, <<>>), O(<<T("rule"), ST>>, <<>>) >>) >> >>,
+  << << O(<<T("pm"), ST>>, << O(<<T("class"), ST>>, << O(<<T("bw"), ST>>, <<>>) >>) >>) >> >>,
+  << << O(<<T("rp"), ST>>, <<>>), O(<<T("a"), ST>>, <<>>) >> >>,
+  << << O(<<T("blk"), ST>>, <<>>), O(<<T("a"), ST>>, <<>>) >> >>,
   \* shared-prefix: ONE ordering rule (the first one) covers three patching rules
-  << O(<<T("ip"), TT>>, <<>>) >>,
-  << OG(<<T("description")>>), O(<<T("bgp")>>, << O(<<T("peer"), ST>>, << O(<<T("as"), ST>>, <<>>) >>) >>) >>,
-  << O(<<T("ps"), ST>>, << O(<<T("term"), ST>>, <<>>) >>) >>,
-  << O(<<T("interfaces")>>, <<>>), O(<<T("interface"), ST>>, << O(<<T("shutdown")>>, <<>>), O(<<T("mtu")>>, <<>>) >>), O(<<T("a"), ST>>, <<>>) >>,
-  << O(<<T("a"), ST>>, <<>>), O(<<T("rv"), ST>>, <<>>) >>
+  << << O(<<T("ip"), TT>>, <<>>) >> >>,
+  \* global-desc: the %global entry declared BEFORE the block rule ranks before the block's child rules at every depth; declared AFTER it, after them
+  << << OG(<<T("description")>>), O(<<T("bgp")>>, << O(<<T("peer"), ST>>, << O(<<T("as"), ST>>, <<>>) >>) >>) >>,
+     << O(<<T("bgp")>>, << O(<<T("peer"), ST>>, << O(<<T("as"), ST>>, <<>>) >>) >>), OG(<<T("description")>>) >> >>,
+  << << O(<<T("ps"), ST>>, << O(<<T("term"), ST>>, <<>>) >>) >> >>,
+  << << O(<<T("interfaces")>>, <<>>), O(<<T("interface"), ST>>, << O(<<T("shutdown")>>, <<>>), O(<<T("mtu")>>, <<>>) >>), O(<<T("a"), ST>>, <<>>) >> >>,
+  << << O(<<T("a"), ST>>, <<>>), O(<<T("rv"), ST>>, <<>>) >> >>,
+  << << O(<<T("blk"), ST>>, << O(<<T("y")>>, <<>>), O(<<T("x"), ST>>, <<>>) >>) >> >>,
+  << << O(<<T("rd"), ST>>, <<>>) >> >>
 >>
 \* disjointness of sibling languages over the instance universe of the patching catalogue (domain assumption of C08)
 RECURSIVE AllInst(_)
 AllInst(rules) == UNION { UNION { {r.inst[g][v] : v \in DOMAIN r.inst[g]} : g \in DOMAIN r.inst } \cup AllInst(r.kids) : r \in {rules[k] : k \in DOMAIN rules} }
 RECURSIVE Disjoint(_, _)
-Disjoint(ord, U) == /\ \A row \in U : ~Ambiguous(Prefix, ord, row) /\ ~Ambiguous(Prefix, ord, <<Prefix>> \o row)
-                    /\ \A k \in DOMAIN ord : Disjoint(ord[k].kids, U)
+Disjoint(vis, U) == /\ \A row \in U : ~Ambiguous(Prefix, vis, row) /\ ~Ambiguous(Prefix, vis, <<Prefix>> \o row)
+                    /\ \A k \in DOMAIN vis : vis[k].kids # <<>> => Disjoint(Splice(vis, k), U)
 =============================================================================
